@@ -4,7 +4,12 @@ use serde_json::Value;
 
 pub mod codec;
 pub mod envelope;
+pub mod identity;
 pub mod merkle;
+pub mod procs;
+pub mod secrets;
+pub mod stats;
+pub mod versions;
 pub mod server;
 pub mod sign;
 
@@ -120,6 +125,56 @@ pub fn all() -> Vec<PropDef> {
             timeout_s: t_std,
             run: |c| server::run(server::Which::C09, c),
             replay: |c, s, v| server::replay(server::Which::C09, c, s, v),
+        },
+        PropDef {
+            id: "C10",
+            level: "exploration",
+            rule: "proptest seeds (arbitrary, all-zero, all-0xff, RFC 8032 vectors, printable) x 1..=6 restarts x make_cert sequences of 1..=8 in generated protocol order (library), and 1..=3 in-process server restarts serving generated traffic of both protocols; oracle = ring-derived public key, sha2 SRV, Display, CERT shape {SIG, DELE{PUBK,MINT,MAXT}}, ring verification under the protocol's delegation context and NON-verification under the other's, MINT <= MIDP <= MAXT, delegated key = online key. Non-trivial = >= 2 restarts with certificates of both protocols; distinct by seed",
+            assumptions: &["ring's Ed25519 key derivation and verification are correct RFC 8032", "worker threads of the real binary construct their Server through the same code path (covered again at process level by C15/C18)"],
+            shards: s16,
+            timeout_s: t_std,
+            run: identity::run_c10,
+            replay: identity::replay_c10,
+        },
+        PropDef {
+            id: "C11",
+            level: "exploration",
+            rule: "proptest clock values (secs 0..=2^34 and boundary dates up to 9999-12-31, nanos incl. 0, 1, 999, 1000, 999999, 999999999) x both versions through OnlineKey::make_srep, decoded with the reference codec: |MIDP - clock| < one unit (microsecond / second), RADI = 5 s in that unit, signature valid; live: replies of in-process servers (young and aged > 1 s) bracketed by the harness clock with 250 ms slack. Non-trivial = pure case with nanos != 0, or live reply from a server older than 1 s; distinct by (secs, nanos, version) / SREP",
+            assumptions: &["'expressed in whole units' is checked as within one unit (floor vs round not prescribed)", "CLOCK_REALTIME is not stepped by more than 250 ms during a live case"],
+            shards: s16,
+            timeout_s: t_std,
+            run: identity::run_c11,
+            replay: identity::replay_c11,
+        },
+        PropDef {
+            id: "C12",
+            level: "exploration",
+            rule: "exhaustive table: every VER list of length 0..=5 (quick) / 0..=6 (thorough) over {draft-13, 0, 1, 0x8000000b, 0x8000000d} and 'VER absent', each x SRV absent/correct/wrong; for [draft-13]: all 256 single-bit SRV corruptions, SRV lengths {0,4,28,36,64}, another server's SRV; requests otherwise standard, 48 per batch, one per socket; oracle = truth table of the property + strict verification of every reply (SREP.VER = draft-13, sorted VERS containing it). Non-trivial = list of length >= 2 with draft-13 at position >= 2, or any SRV corruption; distinct by (list, SRV)",
+            assumptions: &["draft-13 at list position 5 or 6 may be answered or not (if answered the reply must verify)"],
+            shards: s16,
+            timeout_s: t_std,
+            run: versions::run,
+            replay: versions::replay,
+        },
+        PropDef {
+            id: "C17",
+            level: "exploration",
+            rule: "bounded-exhaustive histories of the 8 recording operations x 3 addresses (v4+v6) x limits 1..=3 up to length 4 (quick) / 5 (thorough); random histories up to 10,000 ops with byte counts {0,1,7,1500}; splits across 1..=4 worker recorders with generated snapshot points merged by a real Reporter; traffic mixes served by an in-process Server with client_stats off/on; oracle = exactly-one-counter step invariant, tracked addresses <= limit, Aggregated == PerClient totals while no overflow, merged per-address sums == sums of recorded events, recorded totals == datagrams and replies seen on the sockets. Non-trivial = history that overflowed, split with >= 2 workers and >= 2 snapshots, or a traffic case; distinct by content",
+            assumptions: &["hooks: PerClientStats::verif_with_limit, Server::verif_stats, Reporter::verif_client_stats (feature verif)", "the snapshot procedure replicated in the split check is the one in Server::send_client_stats (iter -> force_push -> clear)"],
+            shards: s16,
+            timeout_s: t_std,
+            run: stats::run,
+            replay: stats::replay,
+        },
+        PropDef {
+            id: "C20",
+            level: "exploration",
+            rule: "proptest seeds (incl. printable ASCII) x log level (one per worker process, all six levels) x request mixes (valid, invalid, fault-injected); needles = seed, SHA-512(seed) halves, clamped scalar, each raw / hex lower+upper / base64 std+url with and without padding, every 16-byte raw and 24-char encoded window; haystack = every emitted datagram, every formatted log record, the announced public key; positive control: sentinel nonce prefix found in the Debug log. Real-binary part: stdout+stderr of roughenough-server for file/ENV configurations incl. invalid ones. Non-trivial = run at level >= Debug with valid and invalid datagrams, or a real-binary run; distinct by (seed, level, source)",
+            assumptions: &["a 16-byte window colliding by chance has probability ~2^-128 per position"],
+            shards: |_| 18,
+            timeout_s: t_std,
+            run: secrets::run,
+            replay: secrets::replay,
         },
     ]
 }
